@@ -490,6 +490,8 @@ def main(tier, seed):
             rep.violation('model:' + m['model'], '%s: implementation coefficients differ from the model Matrix.v' % m['model'], dict(kind='model', case=m, coq_term=t[:6000]))
     if bad or logs:
         rep.violation('corr:uneval', 'correspondence corr.C08 could not be evaluated for %d cases' % bad, dict(kind='correspondence', name='corr.C08', log=logs[:3]), no_input=True)
+    import r9
+    r9.c08_overflowing_direction(rep, algopy, rng, tier, viol)
     return rep.finish()
 
 
